@@ -156,6 +156,39 @@ pub struct Zoo {
     pub map: std::collections::BTreeMap<String, u32>,
     pub newtype: ZooNew,
     pub tstruct: ZooTuple,
+    /// types whose serde implementation depends on `is_human_readable` (text in JSON-like
+    /// formats, compact in binary ones): the schema must describe what the bridge's format writes
+    pub ip: std::net::Ipv4Addr,
+    pub stamp: Stamp,
+}
+
+/// written by hand the way uuid / time / ip types are: a string for human-readable formats, a
+/// number otherwise
+#[derive(Clone, Debug, PartialEq)]
+pub struct Stamp(pub u64);
+
+impl Serialize for Stamp {
+    fn serialize<S: serde::Serializer>(&self, s: S) -> Result<S::Ok, S::Error> {
+        if s.is_human_readable() {
+            s.serialize_str(&format!("t{}", self.0))
+        } else {
+            s.serialize_u64(self.0)
+        }
+    }
+}
+
+impl<'de> Deserialize<'de> for Stamp {
+    fn deserialize<D: serde::Deserializer<'de>>(d: D) -> Result<Self, D::Error> {
+        if d.is_human_readable() {
+            let s = String::deserialize(d)?;
+            s.strip_prefix('t')
+                .and_then(|n| n.parse().ok())
+                .map(Stamp)
+                .ok_or_else(|| serde::de::Error::custom("not a stamp"))
+        } else {
+            u64::deserialize(d).map(Stamp)
+        }
+    }
 }
 
 #[derive(Serialize, Deserialize, Clone, Debug, PartialEq)]
